@@ -656,6 +656,7 @@ func TestCheck(t *testing.T) {
 	}
 	schedPart(r, t)
 	pullDuplicates(r, t)
+	pullStaleDuplicates(r, t)
 	r.Assume("operator cancel/requeue are applied through the Store (the Admin layer in front of them is C14/C15); gRPC status mapping is a thin switch over the same pullapi operations and is exercised by C07/C11")
 	r.Assume("lease ids with surrounding blanks are trimmed by the API layer before they reach the store; blank ids are refused with 400 by the API and are not part of this alphabet")
 	r.Set("rule", "every history up to the depth over {dequeue batch 1/2, ack/nack/dead-letter/extend with each of the 3 newest lease ids and an unknown id, batch ack/nack with duplicates, stale and unknown ids mixed, operator cancel/requeue, clock +1 ns/+1 s/+ttl/+ttl+1 s/to the idempotency-window end - 1 ns} through the pull HTTP handler wired by startServers, on memory and SQLite, in a virtual-time bubble; oracle: qmodel for the store contract plus the idempotent-duplicate rule (a stale call may succeed only as a duplicate of an identical operation that succeeded less than RecentLeaseOpTTL ago, and then without effect), full listing compared after every step; states de-duplicated on contract state + clock + remembered duplicates + issued leases; plus schedules: every interleaving (memory: all; SQLite: within the preemption bound) of a worker presenting lease a#1 in single and batch form while the clock passes its expiry, a second worker re-leases and settles the message and an operator cancels/requeues, linearizability against qmodel")
